@@ -29,7 +29,7 @@ META = {
     ],
 }
 
-STMTS = ["begin", "commit", "rollback", "insert", "select", "failing", "conn.commit", "conn.rollback", "description", "create_comment", "update", "executemany", "failing_executemany", "failing_execute_string"]
+STMTS = ["begin", "commit", "rollback", "insert", "select", "failing", "conn.commit", "conn.rollback", "description", "create_comment", "update", "executemany", "failing_executemany", "failing_execute_string", "write_pandas"]
 FAILING = ("failing", "failing_executemany", "failing_execute_string")
 TX_WORDS = ("BEGIN", "COMMIT", "ROLLBACK", "START")
 
@@ -118,6 +118,12 @@ def _step(a_h: int, b_h: int, who: int, which_cur: int, si: int) -> bool:
             cur.description  # noqa: B018
         elif stmt == "create_comment":
             cur.execute("create table tc (a int, b varchar(5)) comment = 'x'")
+        elif stmt == "write_pandas":
+            import pandas as pd
+
+            import fakesnow.pandas_tools as fpt
+
+            fpt.write_pandas(conn, pd.DataFrame({"A": [41, 42]}), "T2")
     except snowflake.connector.errors.ProgrammingError as e:
         err = e
     if (err is not None) != (stmt in FAILING):
@@ -133,7 +139,9 @@ def _step(a_h: int, b_h: int, who: int, which_cur: int, si: int) -> bool:
         elif s.in_tx != was_tx or s.setting != setting:
             return False
     if mine is None:
-        return False
+        # outside a transaction a bulk load through a throw-away engine connection autocommits exactly like one on the session's own
+        # connection (not observable); inside one it escapes the transaction
+        return stmt == "write_pandas" and not in_tx0 and not any(_tx_calls(x.calls) or x.in_tx for x in eng.stubs[nstubs:])
     s, ncalls, was_tx = mine
     if was_tx != in_tx0:
         return False  # the statement went to an engine connection in the other session's transaction state
@@ -166,6 +174,8 @@ def _step(a_h: int, b_h: int, who: int, which_cur: int, si: int) -> bool:
     for w in eng.writes[w0:]:
         if w[0] != s.id and w[0] < nstubs:
             return False
+        if w[0] >= nstubs and in_tx0:
+            return False  # a write through a throw-away engine connection is outside the session's open transaction (and its isolation)
         if w[0] == s.id and in_tx0 and not w[3]:
             return False  # a write of a session inside a transaction escaped that transaction
     return True
@@ -176,11 +186,11 @@ def _step(a_h: int, b_h: int, who: int, which_cur: int, si: int) -> bool:
     encodes=["fakesnow.instance.FakeSnow.connect", "fakesnow.conn.FakeSnowflakeConnection.cursor/commit/rollback", "fakesnow.cursor.FakeSnowflakeCursor.execute/_execute/executemany/description"],
     bounds="two sessions x two cursors each; pre-state: each session fresh | inside a transaction | after a rolled-back transaction | after a committed "
     "transaction (all reached through the public API, through different cursors); step: "
-    "session, cursor and one of 14 statements (BEGIN, COMMIT, ROLLBACK, INSERT, UPDATE, executemany, SELECT, a failing execute / executemany / execute_string, conn.commit(), "
-    "conn.rollback(), reading description, CREATE TABLE with comment and VARCHAR length)",
+    "session, cursor and one of 15 statements (BEGIN, COMMIT, ROLLBACK, INSERT, UPDATE, executemany, SELECT, a failing execute / executemany / execute_string, conn.commit(), "
+    "conn.rollback(), reading description, CREATE TABLE with comment and VARCHAR length, write_pandas): every write goes through the session's own engine connection",
     timeout=(300, 600),
     stubs=["K3 vf.duckstub.Engine (per-connection transaction flag, call log per engine connection)"],
-    shards=(14, 14),
+    shards=(15, 15),
 )
 def routing(a_h: int, b_h: int, who: int, which_cur: int, si: int) -> bool:
     """
@@ -247,6 +257,19 @@ def _real_routing(a: dict):
             cur.description  # noqa: B018
         elif stmt == "create_comment":
             cur.execute("create table tc (a int, b varchar(5)) comment = 'x'")
+        elif stmt == "write_pandas":
+            import pandas as pd
+
+            import fakesnow.pandas_tools as fpt
+
+            fpt.write_pandas(conn, pd.DataFrame({"A": [41, 42]}), "T2")
+            in_tx = [a["a_tx"], a["b_tx"]][who]
+            mine = [r[0] for r in curs[who][1 - wc].execute("select a from t2").fetchall()]
+            other = [r[0] for r in curs[1 - who][0].execute("select a from t2").fetchall()]
+            if 41 not in mine:
+                problems.append(f"write_pandas rows are not visible to the loading session itself: {mine}")
+            if in_tx and 41 in other:
+                problems.append(f"write_pandas inside an open transaction is visible to the other session before COMMIT: {other}")
     except Exception as e:  # noqa: BLE001
         problems.append(f"{stmt} raised {type(e).__name__}: {e}")
     # A's uncommitted row must be visible to A's cursors and invisible to B while A's transaction is open
@@ -380,3 +403,8 @@ def independence(si: int, pk: int, as_dict: bool, same_cursor: bool) -> bool:
     from vf import fast as _f
 
     return done(_f.native(_indep.independent, _f.pick(si, len(_indep.SUBJECTS)), _IND_PRIORS[_f.pick(pk, len(_IND_PRIORS))], bool(_f.pick(as_dict, 2)), bool(_f.pick(same_cursor, 2))))
+
+import obligations.C19  # noqa: E402,F401
+from vf.registry import alias  # noqa: E402
+
+alias("C13.refused_commit_is_reported", "C19.refused_commit_is_reported", "atomicity: when the engine refuses a COMMIT (and rolls back), the session is told - never 'Statement executed successfully.'")
